@@ -95,12 +95,15 @@ def gen_regex(rng, cfg, literal=False):
     toks = [w for l in cfg for w in l.split()] or ["x"]
     w = rng.choice(toks)
     w2 = rng.choice(toks)
-    k = rng.randrange(13)
+    k = rng.randrange(14)
     split = (w[:len(w) // 2] + " " + w[len(w) // 2:]) if len(w) > 1 else w      # 'Eth 10' must NOT match 'Eth10' under ignore_ws
     if literal:
         return rng.choice([w, w + " " + w2, rng.choice(cfg).strip() or w, w[:max(1, len(w) - 1)], w + "  " + w2, "a+b", "x(1)", "1.1.1.1", "(", "a|b", split])
     if k == 12:
         return " ".join(re.escape(x) for x in split.split(" "))
+    if k == 13:
+        # regexes whose match consists of blanks only, or of nothing: a line matches whatever the matched text looks like
+        return rng.choice([r"^\s+", "^ ", r"^\s\s", r"^(\s+)", " ", r"\s$", r"^\s*", "", r"^(\s*)\S", r"\s" + re.escape(w[:1])])
     if k == 0:
         return re.escape(w)
     if k == 1:
